@@ -228,6 +228,9 @@ def gen_case(rng):
     grid = sorted({k * interval // 2 for k in range(0, 9)} | {k * interval + d for k in range(1, 4)
                                                               for d in (-10_000, 10_000)})
     times = sorted(rng.sample(grid, rng.randrange(1, 5)))
+    if rng.random() < 0.3:
+        # a burst: two or three events in the same instant, nothing else runs in between
+        times = sorted(times + [rng.choice(times)] * rng.choice([1, 1, 2]))
     events = []
     tag = 1
     for t in times:
@@ -242,7 +245,7 @@ def gen_case(rng):
 
 def check(run):
     spec = C18()
-    run.rule = ("arrival patterns of 1..4 events on a grid relative to the interval (half intervals, "
+    run.rule = ("arrival patterns of 1..4 events (30 % with a burst of 2-3 events in one instant) on a grid relative to the interval (half intervals, "
                 "exactly at a repetition, 10 ms before/after one), count in {None,0,1,3}, matching and "
                 "non-matching event types, explicit Repeat blocks, implicit ones created by "
                 "Event(..., repeat=, count=), chains of two Repeat blocks; the run continues after the "
